@@ -537,6 +537,38 @@ func (c *Ctx) lookupLocalName(name string, env *Env) *Val {
 		if np == 1 {
 			return c.vals[phi]
 		}
+		// several definitions: the one in scope at the current program point is the
+		// definition closest to it among those that dominate it
+		if c.curBlk != nil {
+			var best ssa.Value
+			tie := false
+			for v := range uniq {
+				in, ok := v.(ssa.Instruction)
+				if !ok || in.Block() == nil || !(in.Block() == c.curBlk || in.Block().Dominates(c.curBlk)) {
+					continue
+				}
+				if best == nil {
+					best = v
+					continue
+				}
+				bb := best.(ssa.Instruction).Block()
+				switch {
+				case bb == in.Block():
+					tie = true
+				case bb.Dominates(in.Block()):
+					best, tie = v, false
+				}
+			}
+			if best != nil && !tie {
+				return c.vals[best]
+			}
+			if best == nil {
+				// not assigned on the way to this point: any value (the clause must hold for all)
+				for v := range uniq {
+					return c.freshVal(v.Type(), "unassigned_"+name)
+				}
+			}
+		}
 		c.specErr("name %q is ambiguous here (%d SSA values)", name, len(uniq))
 	}
 	return nil
